@@ -302,6 +302,15 @@ CLAIMED = {
              "script is read by the Coq reader and by bash and compared with the recorded command.",
         technique="Coq proof (quoting / shell-reading round trip for all byte strings) + real bundles replayed byte for byte, scripts read by the model and by bash",
         design_ref="DESIGN.md §3 C24"),
+    "C31": dict(
+        text="S1: symbols as attribute records (defined, binding, visibility, retained, version-script local, from an --exclude-libs archive, named by --export-dynamic-symbol, referenced / defined "
+             "by a shared library, referenced); GNU ld's export and import rule; wild's decision as the code makes it (downgrade to local, can_export_symbol, export on load, export on a shared "
+             "library's request); .symtab as locals then globals. Theorems over all 3072 attribute combinations x 4 configurations: wild exports and imports exactly what the rule says; hidden, "
+             "internal, excluded, version-script-local, local, undefined and collected symbols are never exported; locals precede globals and sh_info is the boundary.",
+        note="Partial: the attribute abstraction is mine; it is validated on every run against GNU ld 2.40 and against wild on generated programs. Values, sizes, types, bindings and "
+             "visibilities in .symtab are checked on real outputs (st_value must point at the symbol's marker bytes; the rest as ld writes it), as is the absence of .symtab under -s.",
+        technique="Coq proof (exhaustive case analysis lifted to all symbols) + real .dynsym/.symtab compared with the model and with GNU ld",
+        design_ref="DESIGN.md §3 C31"),
     "C10": dict(
         text="S1: Gallina model of what wild writes for unwinding (an FDE is kept iff the section its pc-begin points into was loaded and is not empty; one search-table entry per kept FDE with "
              "hdr-relative signed start and FDE pointer; the table sorted by the signed start) and of the consumer (the last entry with start <= pc, then the range check — what libgcc's binary "
